@@ -39,20 +39,12 @@ theorem expect_carriable (cfg1 cfg2 : Cfg) (c : Call) (a : Answer) (hid : c.idFr
       cases b <;> simp only [onWire, Carriable] at hcar
       rename_i d content
       simp only [onWire, expect, expectOk, asAnswer, Carriable]
-      refine ⟨hcar.1, fun _ => ?_⟩
-      by_cases ho : cfg1.o.omitDigest = true
-      · simp [ho]; exact hwf.2
-      · have ho' : cfg1.o.omitDigest = false := by simpa using ho
-        simp [ho']; exact hcar.2 ho'
+      exact ⟨hcar.1, fun _ => hwf.2⟩          -- F31: the first hop delivers the digest asked for
     | resolveManifest repo dg =>
       cases b <;> simp only [onWire, Carriable] at hcar
       rename_i d
       simp only [onWire, expect, expectOk, asAnswer, Carriable]
-      refine ⟨hcar.1, ?_⟩
-      by_cases ho : cfg1.o.omitDigest = true
-      · simp [ho]; exact hwf.2
-      · have ho' : cfg1.o.omitDigest = false := by simpa using ho
-        simp [ho']; exact hcar.2
+      exact ⟨hcar.1, hwf.2⟩
     | getTag repo tag =>
       have ho : cfg1.o.omitDigest = false := hs1
       cases b <;> simp only [onWire, Carriable] at hcar
@@ -64,7 +56,8 @@ theorem expect_carriable (cfg1 cfg2 : Cfg) (c : Call) (a : Answer) (hid : c.idFr
       simpa [onWire, expect, expectOk, asAnswer, Carriable] using hcar
     | resolveBlob repo dg =>
       cases b <;> simp only [onWire, Carriable] at hcar
-      simpa [onWire, expect, expectOk, asAnswer, Carriable] using hcar
+      simp only [onWire, expect, expectOk, asAnswer, Carriable]
+      exact ⟨hcar.1, hwf.2⟩
     | resolveTag repo tag =>
       cases b <;> simp only [onWire, Carriable] at hcar
       simpa [onWire, expect, expectOk, asAnswer, Carriable] using hcar
@@ -73,7 +66,8 @@ theorem expect_carriable (cfg1 cfg2 : Cfg) (c : Call) (a : Answer) (hid : c.idFr
       simp [onWire, expect, expectOk, asAnswer, Carriable]
     | mountBlob fromRepo toRepo dg =>
       cases b <;> simp only [onWire, Carriable] at hcar
-      simpa [onWire, expect, expectOk, asAnswer, Carriable] using hcar
+      simp only [onWire, expect, expectOk, asAnswer, Carriable]
+      exact hwf.2.2
     | deleteBlob repo dg =>
       cases b <;> simp only [onWire, Carriable] at hcar
       simp [onWire, expect, expectOk, asAnswer, Carriable]
@@ -162,43 +156,20 @@ theorem two_hops_ok_equiv (cfg1 cfg2 : Cfg) (c : Call) (b : BRes) (hid : c.idFre
     cases b <;> simp only [onWire, Carriable] at hcar
     simp only [onWire, Faithful, expect, expectOk, asAnswer] at hf hf2
     simp only [Equiv, expect, expectOk, asAnswer, DescEquiv, Call.carriesMediaType, onWire]
-    refine ⟨_, _, rfl, ?_, rfl, by simp⟩
-    by_cases h2 : cfg2.o.omitDigest = true
-    · by_cases h1 : cfg1.o.omitDigest = true
-      · simp [h2, hf h1]
-      · have h1' : cfg1.o.omitDigest = false := by simpa using h1
-        have := hf2 h2
-        simp [h1'] at this
-        simp [h2, this]
-    · have h2' : cfg2.o.omitDigest = false := by simpa using h2
-      by_cases h1 : cfg1.o.omitDigest = true
-      · simp [h2', h1, hf h1]
-      · have h1' : cfg1.o.omitDigest = false := by simpa using h1
-        simp [h2', h1']
+    exact ⟨_, _, rfl, hf.symm, rfl, by simp⟩      -- F31: both hops report `dg`; `hf` says it is the backend's
   | resolveManifest repo dg =>
     cases b <;> simp only [onWire, Carriable] at hcar
     simp only [onWire, Faithful, expect, expectOk, asAnswer] at hf hf2
     simp only [Equiv, expect, expectOk, asAnswer, DescEquiv, Call.carriesMediaType, onWire]
-    refine ⟨_, rfl, ?_, rfl, by simp⟩
-    by_cases h2 : cfg2.o.omitDigest = true
-    · by_cases h1 : cfg1.o.omitDigest = true
-      · simp [h2, hf h1]
-      · have h1' : cfg1.o.omitDigest = false := by simpa using h1
-        have := hf2 h2
-        simp [h1'] at this
-        simp [h2, this]
-    · have h2' : cfg2.o.omitDigest = false := by simpa using h2
-      by_cases h1 : cfg1.o.omitDigest = true
-      · simp [h2', h1, hf h1]
-      · have h1' : cfg1.o.omitDigest = false := by simpa using h1
-        simp [h2', h1']
+    exact ⟨_, rfl, hf.symm, rfl, by simp⟩
   | getBlob repo dg =>
     cases b <;> simp only [onWire, Carriable] at hcar
     simp only [onWire, Faithful] at hf
     simp [Equiv, expect, expectOk, asAnswer, DescEquiv, Call.carriesMediaType, onWire, hf]
   | resolveBlob repo dg =>
     cases b <;> simp only [onWire, Carriable] at hcar
-    simp [Equiv, expect, expectOk, asAnswer, DescEquiv, Call.carriesMediaType, onWire]
+    simp only [onWire, Faithful] at hf
+    simp [Equiv, expect, expectOk, asAnswer, DescEquiv, Call.carriesMediaType, onWire, hf]
   | resolveTag repo tag =>
     cases b <;> simp only [onWire, Carriable] at hcar
     simp [Equiv, expect, expectOk, asAnswer, DescEquiv, Call.carriesMediaType, onWire]
@@ -209,7 +180,8 @@ theorem two_hops_ok_equiv (cfg1 cfg2 : Cfg) (c : Call) (b : BRes) (hid : c.idFre
     simp [Equiv, expect, expectOk, asAnswer, DescEquiv, Call.carriesMediaType, onWire, hf.1, hf.2.1, hf.2.2, hf2.1]
   | mountBlob fromRepo toRepo dg =>
     cases b <;> simp only [onWire, Carriable] at hcar
-    simp [Equiv, expect, expectOk, asAnswer, onWire]
+    simp only [onWire, Faithful] at hf
+    simp [Equiv, expect, expectOk, asAnswer, onWire, hf]
   | deleteBlob repo dg =>
     cases b <;> simp only [onWire, Carriable] at hcar
     simp [Equiv, expect, expectOk, asAnswer, onWire]
